@@ -101,7 +101,20 @@ def p_fdte(e):
     return out
 
 
+TABLE_CAP = 200     # no BVLL frame of the grids carries more than ~150 table entries: a longer decoded table is
+# recorded truncated (it then differs from what the specification decodes, which is what TLC reports) instead of
+# letting a runaway table blow up the trace file
+
+
 def project(obj):
+    out = _project(obj)
+    for k in ("bdt", "fdt"):
+        if k in out and len(out[k]) > TABLE_CAP:
+            out[k] = out[k][:TABLE_CAP]
+    return out
+
+
+def _project(obj):
     fn = FN_OF[type(obj).__name__]
     if fn == 0:
         return {"fn": fn, "code": obj.bvlciResultCode}
